@@ -593,6 +593,31 @@ def c02(ctx):
                           f'{c.meta["api"]}: {str(x)[:200]} (expected a mismatch for {c.meta["broken"]})',
                           {'meta': {k: v for k, v in c.meta.items() if k != 'paths'}, 'ops': c.ops, 'impl': i, 'tree': describe(c.tree)})
     ctx.cov['engines']['tree:chain-tamper']['tamperings_detected_at_the_broken_link'] = detected
+    # the same through the command-line tool: a broken chain never ends with exit status 0, with or without --keep-going
+    r = ctx.rng('c02cli')
+    n = ok = 0
+    with ET.Scratch() as sc:
+        for _ in range(150 if ctx.tier == 'quick' else 1500):
+            c = chain_case(r)
+            if not c.meta['changed']:
+                continue
+            b, s = sc.fresh()
+            try:
+                c.tree.realise(b, s)
+                sub = r.choice(['', c.meta['dirs'][r.randint(c.meta['k'], c.meta['depth'])]])
+                flags = r.choice([[], ['--keep-going']])
+                with ET.ScandirOrder(GT.order_key_for(c.meta['order_seed'])):
+                    rc, items = run_cli_collect(['gemato', 'verify', '--no-openpgp-verify'] + flags + [os.path.join(b, sub) if sub else b])
+            finally:
+                sc.cleanup(b, s)
+            n += 1
+            if rc == 0:
+                ctx.violation('spec', f'gemato verify {" ".join(flags)} {sub or "<top>"} exited 0 although {c.meta["target"]} and every Manifest up to level '
+                              f'{c.meta["k"]} were replaced below the untouched level {c.meta["k"] - 1}',
+                              {'meta': {k: v for k, v in c.meta.items() if k != 'paths'}, 'flags': flags, 'path': sub, 'log': items, 'tree': describe(c.tree)})
+            else:
+                ok += 1
+    ctx.count('cli:chain-tamper', n, n, dist={'runs_not_exiting_0': ok})
 
 
 # --------------------------------------------------------------------------- C06
@@ -655,6 +680,54 @@ def c06(ctx):
                               {'meta': {k2: v for k2, v in c.meta.items() if k2 != 'paths'}, 'ops': c.ops, 'faults': c.faults, 'tree': describe(c.tree)})
     ctx.cov['engines']['tree:faults-update'].update(runs_ending_with_the_injected_error=hit2, runs_that_wrote_without_save=wrote)
     cli_unreadable_outer(ctx)
+    transient_faults(ctx)
+
+
+def transient_faults(ctx):
+    """an I/O error that hits only the n-th access to one object (the first accesses succeed): an update whose run meets the
+    error fails, and the tree is as before - the error is never taken for 'the object has vanished'"""
+    import p_update as PU
+    r = ctx.rng('c06transient')
+    st = {'runs': 0, 'fault_fired': 0, 'update_failed_as_required': 0}
+    with ET.Scratch() as sc:
+        for _ in range(400 if ctx.tier == 'quick' else 4000):
+            c = PU.gen_c10_case(r, 'plain')
+            t = c.tree
+            upd = [op for op in c.ops if op[0] == 'update'][0]
+            reach = dict((ino, p) for p, ino in t.files())
+            dirs_ = [(i, n) for i, n in t.nodes.items() if n['k'] == 'd']
+            files_ = [(i, t.nodes[i]) for i in reach]
+            i, n = r.choice(dirs_ * 2 + files_) if files_ else r.choice(dirs_)
+            prim = r.choice(['stat', 'stat', 'scandir']) if n['k'] == 'd' else r.choice(['open', 'fstat', 'stat'])
+            en = r.choice(['EACCES', 'EIO', 'ENOMEM', 'ESTALE', 'EPERM'])
+            nth = r.choice([2, 2, 3])
+            b, s = sc.fresh()
+            try:
+                paths = t.realise(b, s)
+                if i not in paths:
+                    continue
+                stt = os.stat(paths[i])
+                before = ET.canon_files(ET.list_real_files(b))
+                out = ET.run_impl(b, c.top, c.opts, c.allow_create, c.allow_xdev, [upd], GT.order_key_for(c.meta['order_seed']),
+                                  [(prim, (stt.st_dev, stt.st_ino), (en, nth))])
+                fired = ET.FaultInjector.fired
+                after = ET.canon_files(ET.list_real_files(b))
+            finally:
+                sc.cleanup(b, s)
+            st['runs'] += 1
+            if not fired:
+                continue
+            st['fault_fired'] += 1
+            failed = out[0] != 'ok' or any(x[0] != 'ok' for x in out[1])
+            rp = {'meta': {k: v for k, v in c.meta.items() if k != 'paths'}, 'op': upd, 'fault': [prim, i, en, 'call %d' % nth],
+                  'object': reach.get(i, 'directory inode %d' % i), 'impl': out, 'tree': describe(t)}
+            if not failed:
+                ctx.violation('spec', f'{prim}() of {rp["object"]} failed with {en} on its call no. {nth} during the update, yet the update reported success', rp)
+            elif before != after:
+                ctx.violation('spec', f'an update that met {en} has written to the tree', rp)
+            else:
+                st['update_failed_as_required'] += 1
+    ctx.count('tree:transient-faults', st['runs'], st['runs'], dist=st)
 
 
 def cli_unreadable_outer(ctx):
